@@ -961,3 +961,50 @@ Proof.
   - apply IH.
   - rewrite Hg. reflexivity.
 Qed.
+
+(* ------------------------------------------------------------------ operand order of ufunc.outer *)
+Section OuterOrder.
+  Variable A : Type.
+
+  Lemma zsum_app : forall l1 l2, zsum (l1 ++ l2) = (zsum l1 + zsum l2)%Z.
+  Proof. induction l1 as [|x l1 IH]; intros l2; cbn [zsum app]; [reflexivity|]. rewrite IH. lia. Qed.
+
+  Lemma zsum_rev : forall l, zsum (rev l) = zsum l.
+  Proof. induction l as [|x l IH]; cbn [rev zsum]; [reflexivity|]. rewrite zsum_app, IH. cbn [zsum]. lia. Qed.
+
+  Lemma outer_walk_snoc : forall (l : list (A * Z)) a nd c,
+    outer_walk A true (l ++ [(a, nd)]) c = (outer_walk A true l c ++ [(a, (c + zsum (map snd l))%Z)])%list.
+  Proof.
+    induction l as [|[b m] l IH]; intros a nd c; cbn [app outer_walk map zsum snd].
+    - f_equal. f_equal. lia.
+    - rewrite IH. cbn [app]. f_equal. f_equal. f_equal. f_equal. lia.
+  Qed.
+
+  Lemma rev_walk_spec : forall l : list (A * Z), rev (outer_walk A true (rev l) 0%Z) = np_outer_spec A l.
+  Proof.
+    induction l as [|[a nd] l IH]; [reflexivity|].
+    cbn [rev np_outer_spec]. rewrite outer_walk_snoc, rev_app_distr. cbn [rev app].
+    rewrite IH, map_rev, zsum_rev. reflexivity.
+  Qed.
+
+  (* with the bookkeeping the source has today — walk reversed(inputs), append before incrementing cum_ndim,
+     reverse the list back — the operands reach elemwise in CALL order with NumPy's index expansion,
+     for every number of operands and every ndim *)
+  Lemma outer_inputs_spec : forall o l,
+    o = mkOuter true true true -> outer_inputs A o l = np_outer_spec A l.
+  Proof. intros o l ->. unfold outer_inputs. cbn. apply rev_walk_spec. Qed.
+End OuterOrder.
+
+Lemma ufunc_outer_operand_order_proof : forall (A : Type) (l : list (A * Z)),
+  match au_outer_order au_facts with
+  | Some o => outer_inputs A o l = np_outer_spec A l
+  | None => False
+  end.
+Proof. intros A l. exact (outer_inputs_spec A (mkOuter true true true) l eq_refl). Qed.
+
+(* dropping either reversal swaps the operands *)
+Example outer_order_matters :
+  outer_inputs string (mkOuter true false true) [("x", 1%Z); ("y", 1%Z)] = [("y", 0%Z); ("x", 1%Z)] /\
+  outer_inputs string (mkOuter true true true) [("x", 1%Z); ("y", 1%Z)] = [("x", 1%Z); ("y", 0%Z)] /\
+  outer_inputs string (mkOuter true true true) [("x", 2%Z); ("y", 1%Z); ("z", 3%Z)] = [("x", 4%Z); ("y", 3%Z); ("z", 0%Z)].
+Proof. repeat split. Qed.
